@@ -298,6 +298,12 @@ def cases(draw: Any, tier: str) -> Dict[str, Any]:
             return {"form": "lit", "name": "g1"}
         if k == 2 and shadow is not None:
             return {"form": "lit", "name": shadow}
+        if k == 3:
+            # a proper substring of an existing tag / id is not an alias of anything (unless it happens to be one)
+            s0 = draw(st.sampled_from(P["body"]))
+            full = draw(st.sampled_from([s0["site"].lstrip(prog.MARK), P["fns"][s0["fn"]].get("qual", s0["fn"])]))
+            if len(full) >= 2:
+                return {"form": "lit", "name": draw(st.sampled_from([full[:-1], full[1:], full[:1]]))}
         return None
 
     sel: Dict[str, Any] = {"R": None, "X": None, "T": None}
